@@ -6,12 +6,12 @@
 //   readback.*  -- the reference does not read back the value written
 //   stored.*    -- bits inside the target's own range are wrong
 //   clobber.*   -- bits outside the target's own range changed
-// PART 0,1: packed_channel_reference<BF,First,Num> over u8/u16 fields -- every First; 16-bit fields: all 2^16 contents
-// PART 2  : the same over u32/u64 fields (first bits around every byte boundary)
-// PART 3  : packed_dynamic_channel_reference<BF,Num> at first bit 0..7
-// PART 4,5: bit_aligned_pixel_reference (channels, semantic access, proxies, whole pixel, swap)
-// PART 6  : packed_pixel (byte-aligned objects with compile-time channel references, unused bits)
-// PART 7  : bit_aligned_pixel_iterator arithmetic, std::fill / std::copy through it, rows in tight heap blocks (ASan)
+// PART 0-2: packed_channel_reference<BF,First,Num> over u8/u16 fields -- every First; 16-bit fields: all 2^16 contents
+// PART 3,4: the same over u32/u64 fields (first bits around every byte boundary)
+// PART 5  : packed_dynamic_channel_reference<BF,Num> at first bit 0..7
+// PART 6,7: bit_aligned_pixel_reference (channels, semantic access, proxies, whole pixel, swap)
+// PART 8  : packed_pixel (byte-aligned objects with compile-time channel references, unused bits)
+// PART 9  : bit_aligned_pixel_iterator arithmetic, std::fill / std::copy through it, rows in tight heap blocks (ASan)
 // Host assumption: little endian (bit p of a BitField is bit p&7 of byte p>>3).
 #include <boost/gil.hpp>
 #include <boost/mp11.hpp>
@@ -762,21 +762,24 @@ int main(int argc, char** argv) {
     // 8- and 16-bit fields: every (First, Num) with Num 1..8, plus 12 and 16
     all_firsts<uint8_t, 1>(); all_firsts<uint8_t, 2>(); all_firsts<uint8_t, 3>(); all_firsts<uint8_t, 4>();
     all_firsts<uint8_t, 5>(); all_firsts<uint8_t, 6>(); all_firsts<uint8_t, 7>(); all_firsts<uint8_t, 8>();
-    all_firsts<uint16_t, 1>(); all_firsts<uint16_t, 2>(); all_firsts<uint16_t, 3>(); all_firsts<uint16_t, 4>();
 #elif C08_PART == 1
+    all_firsts<uint16_t, 1>(); all_firsts<uint16_t, 2>(); all_firsts<uint16_t, 3>(); all_firsts<uint16_t, 4>();
+#elif C08_PART == 2
     all_firsts<uint16_t, 5>(); all_firsts<uint16_t, 6>(); all_firsts<uint16_t, 7>(); all_firsts<uint16_t, 8>();
     all_firsts<uint16_t, 12>(); all_firsts<uint16_t, 16>();
-#elif C08_PART == 2
+#elif C08_PART == 3
     // 32- and 64-bit fields: first bits around every byte boundary and at the top
     some_firsts<uint32_t, 1, 0, 7, 8, 15, 16, 24, 31>(); some_firsts<uint32_t, 2, 0, 7, 15, 23, 30>(); some_firsts<uint32_t, 3, 0, 6, 14, 22, 29>();
     some_firsts<uint32_t, 4, 0, 5, 12, 21, 28>(); some_firsts<uint32_t, 5, 0, 5, 10, 20, 27>(); some_firsts<uint32_t, 6, 0, 5, 11, 19, 26>();
     some_firsts<uint32_t, 7, 0, 3, 9, 17, 25>(); some_firsts<uint32_t, 8, 0, 4, 8, 13, 24>(); some_firsts<uint32_t, 10, 0, 10, 20, 22>();
     some_firsts<uint32_t, 12, 0, 7, 20>(); some_firsts<uint32_t, 16, 0, 9, 16>();
+    some_firsts<uint32_t, 24, 0, 8>();   // wide channel (beyond the 1..16 bit widths the property enumerates)
+#elif C08_PART == 4
     some_firsts<uint64_t, 1, 0, 31, 32, 63>(); some_firsts<uint64_t, 3, 0, 30, 61>(); some_firsts<uint64_t, 5, 0, 29, 59>(); some_firsts<uint64_t, 8, 0, 28, 32, 56>();
     some_firsts<uint64_t, 12, 0, 26, 52>(); some_firsts<uint64_t, 16, 0, 24, 31, 48>();
     // wide channels (beyond the 1..16 bit widths the property enumerates; the documentation allows them)
-    some_firsts<uint32_t, 24, 0, 8>(); some_firsts<uint64_t, 24, 0, 17, 40>(); some_firsts<uint64_t, 30, 0, 20, 34>();
-#elif C08_PART == 3
+    some_firsts<uint64_t, 24, 0, 17, 40>(); some_firsts<uint64_t, 30, 0, 20, 34>();
+#elif C08_PART == 5
     channel_case(dynamic_ops<uint8_t, 1>()); channel_case(dynamic_ops<uint8_t, 2>()); channel_case(dynamic_ops<uint8_t, 3>()); channel_case(dynamic_ops<uint8_t, 4>());
     channel_case(dynamic_ops<uint8_t, 5>()); channel_case(dynamic_ops<uint8_t, 6>()); channel_case(dynamic_ops<uint8_t, 7>()); channel_case(dynamic_ops<uint8_t, 8>());
     channel_case(dynamic_ops<uint16_t, 1>()); channel_case(dynamic_ops<uint16_t, 2>()); channel_case(dynamic_ops<uint16_t, 3>()); channel_case(dynamic_ops<uint16_t, 4>());
@@ -789,7 +792,7 @@ int main(int argc, char** argv) {
     channel_case(dynamic_ops<uint64_t, 12>()); channel_case(dynamic_ops<uint64_t, 16>());
     // wide channels (beyond the 1..16 bit widths the property enumerates; the documentation allows them)
     channel_case(dynamic_ops<uint32_t, 24>()); channel_case(dynamic_ops<uint64_t, 20>()); channel_case(dynamic_ops<uint64_t, 30>()); channel_case(dynamic_ops<uint64_t, 32>());
-#elif C08_PART == 4
+#elif C08_PART == 6
     // bit-aligned pixels with the bit field bit_aligned_image_type would choose (min_fast_uint<bit_size+7>)
     pixel_case(ba_ops<uint8_t, mp_list_c<int, 1>, gil::gray_layout_t>("gray1", {0}));
     pixel_case(ba_ops<uint16_t, mp_list_c<int, 2>, gil::gray_layout_t>("gray2", {0}));
@@ -798,13 +801,13 @@ int main(int argc, char** argv) {
     pixel_case(ba_ops<uint16_t, mp_list_c<int, 1, 2, 1>, gil::bgr_layout_t>("bgr121", {2, 1, 0}));
     pixel_case(ba_ops<uint16_t, mp_list_c<int, 1, 2, 3>, gil::rgb_layout_t>("rgb123", {0, 1, 2}));
     pixel_case(ba_ops<uint32_t, mp_list_c<int, 4, 4, 4>, gil::rgb_layout_t>("rgb444", {0, 1, 2}));
-#elif C08_PART == 5
+#elif C08_PART == 7
     pixel_case(ba_ops<uint32_t, mp_list_c<int, 5, 6, 5>, gil::rgb_layout_t>("rgb565", {0, 1, 2}));
     pixel_case(ba_ops<uint16_t, mp_list_c<int, 2, 2, 2, 2>, gil::rgba_layout_t>("rgba2222", {0, 1, 2, 3}));
     pixel_case(ba_ops<uint64_t, mp_list_c<int, 8, 8, 8, 8, 8>, gil::devicen_layout_t<5>>("dev5x8", {0, 1, 2, 3, 4}));
     pixel_case(ba_ops<uint32_t, mp_list_c<int, 3, 12, 9>, gil::rgb_layout_t>("rgb3_12_9", {0, 1, 2}));
     pixel_case(ba_ops<uint64_t, mp_list_c<int, 30, 30>, gil::devicen_layout_t<2>>("dev30x2", {0, 1}));   // wide channels, 60-bit pixel
-#elif C08_PART == 6
+#elif C08_PART == 8
     // packed pixels (byte-aligned objects, compile-time channel references), some with unused high bits
     pixel_case(pk_ops<uint16_t, mp_list_c<unsigned, 5, 6, 5>, gil::rgb_layout_t>("pk.rgb565", {0, 1, 2}));
     pixel_case(pk_ops<uint16_t, mp_list_c<unsigned, 5, 5, 6>, gil::bgr_layout_t>("pk.bgr556", {2, 1, 0}));
